@@ -4,12 +4,12 @@ def main(tier, args):
     t0 = time.time()
     exe = vf.build("C04/signals", [vf.VERIF + "/checks/C04/harness.cpp"], vf.module_sources("event", exclude=("event/common_loop_signal.cpp",)), mode="asan",
                    plain_srcs=[vf.VERIF + "/engine/sched/log_stub.cpp"])
-    depth, depth_b, depth_c, depth_d, dl = (6, 6, 6, 6, 80) if tier == "quick" else (8, 7, 12, 10, 1200)
+    depth, depth_b, depth_c, depth_d, dl = (6, 6, 6, 5, 80) if tier == "quick" else (8, 7, 12, 10, 1200)
     res = vf.Result(); log = open(vf.BUILD + "/C04/log.txt", "w")
     jobs = [("%s:cfg%d:A" % (e, c), [exe, e, str(depth), str(c), "A"]) for e in ("epoll", "select") for c in (0, 1, 2)]
     jobs += [("%s:cfg1:B" % e, [exe, e, str(depth_b), "1", "B"], {"VERIF_WORKERS": "2"}) for e in ("epoll", "select")]
     jobs += [("%s:cfg%d:C" % (e, c), [exe, e, str(depth_c), str(c), "C"], {"VERIF_WORKERS": "2"}) for e in ("epoll", "select") for c in (0, 1, 2)]
-    jobs += [("%s:cfg%d:D" % (e, c), [exe, e, str(depth_d), str(c), "D"], {"VERIF_WORKERS": "2"}) for e in ("epoll", "select") for c in (1, 2)]
+    jobs += [("%s:cfg%d:D" % (e, c), [exe, e, str(depth_d), str(c), "D"], {"VERIF_WORKERS": "2"}) for e in ("epoll", "select") for c in (1,)]
     jobs += [("%s:cfg1:Ci" % e, [exe, e, str(depth_c), "1", "Ci"], {"VERIF_WORKERS": "2"}) for e in ("epoll", "select")]
     if args.only: jobs = [j for j in jobs if j[0] == args.only]
     vf.run_procs(res, jobs, env={"VERIF_DEADLINE_S": str(dl), "VERIF_WORKERS": "3"}, log=log)
@@ -19,13 +19,16 @@ def main(tier, args):
                    "Lane A (depth %d, both engines x 3 disposition configs): enable/disable/destroy on e0..e4 + raise(USR1|USR2) on the controller thread followed by one pass of every loop. "
                    "Lane B (depth %d, both engines, config 1): enable/disable on e0..e4 + deliveries raised on a loop's own thread and several deliveries before one pass (USR1 twice; USR1 then USR2; 10xUSR1+USR2 = 11; 21 alternating: more than two reads of 10). "
                    "Lane C (depth %d, both engines x 3 configs) re-subscription: enable/disable on e0,e1,e2 + enable(e5) (sigaction fails: enable must return false and subscribe nothing) + single deliveries, with the state key extended by saturating model counters "
-                   "'loop l dropped its last subscriber before' / 'signal s was restored before' and by 'deferred tasks still queued on loop l', so tear-down -> (pass | no pass) -> subscribe again -> deliveries is explored; lane Ci = lane C with every enable/disable issued from a runNext task inside a kOnce pass (config 1). "
+                   "'loop l dropped its last subscriber before' / 'signal s was restored before' and by 'deferred tasks still queued on loop l', so tear-down -> (pass | no pass) -> subscribe again -> deliveries is explored; lane Ci = lane C with every enable/disable issued from a runNext task inside a kOnce pass (config 1); the direct lane C of config 1 also offers enable(e6)/destroy(e6) with e6 = {USR1,SIGSTOP} (enable must fail as a whole and leave nothing subscribed). "
+                   "Lane D (depth %d, both engines, config 1) initialise-again: e0 {USR1}, e3 {USR2} and e7 (created without initialize()): enable/disable on all three, destroy and addsig (= initialize() again through the accumulating int / initializer_list overloads, adding the other signal) on e0 and e7, on enabled and on disabled events, including enable() before any initialize(); + single deliveries; "
+                   "model: the accumulated set takes effect at the next enable() that returns true, from then on the enabled event gets its callbacks for the whole set and disable/destroy restores every disposition. "
                    "Pre-installed dispositions (USR1,USR2) in {(SIG_IGN,SIG_DFL), (plain handler, SA_SIGINFO handler), (SIG_DFL, plain handler)}, each signal with its own handler function, sa_mask and sa_flags; a delivery that would hit a (restored) SIG_DFL is not offered. "
                    "Oracle (reference model only): per delivery script every enabled persistent subscriber gets exactly as many callbacks per signal as that signal was delivered, with that signal number, on its loop's thread; a one-shot exactly one; nobody else any; "
                    "the pre-installed handler of each signal is invoked once per delivery of its own signal with (signo, siginfo->si_signo, non-null context) and never for the other signal; isEnabled() agrees with the model; enable() returns true (false for e5); "
-                   "each loop thread's signal mask is the same after every operation as at thread start; sigaction() equals the pre-subscription disposition whenever a signal has no subscriber and after every event has been destroyed" % (depth, depth_b, depth_c),
+                   "each loop thread's signal mask is the same after every operation as at thread start; sigaction() equals the pre-subscription disposition whenever a signal has no subscriber and after every event has been destroyed" % (depth, depth_b, depth_c, depth_d),
               assumptions=["deliveries happen only while no subscription change is in progress and subscription changes are never made inside a signal callback apart from the one-shot's own self-disable (DESIGN 1.7)",
                            "disposition compared as handler + sa_mask + (sa_flags & ~SA_RESTORER) (glibc always adds SA_RESTORER)",
                            "several deliveries before one pass: the one-shot clause (at most once) takes precedence over one-callback-per-delivery; order of callbacks between signals is not checked",
                            "lanes B and C use reduced event sets / one disposition config (B, Ci); lane A's state key does not contain the re-subscription counters (lane C's does)",
-                           "a set mixing a catchable and an uncatchable signal (e6 = {USR1,SIGSTOP}) is only operated with C04_MIXED_UNCATCHABLE_SET=1 (default off: the current code leaves USR1 subscribed after the failed enable, see the harness header)"])
+                           "lane D: disable()/destroy of an ENABLED event that holds an added signal no enable() has subscribed yet (enable; addsig; disable) is only offered with C04_ADD_SIGNAL_THEN_DISABLE=1 (default off: on the current code unsubscribeSignal() of the never-subscribed signal installs a zero-filled old handler = SIG_DFL, or dereferences the already deleted pipe reader; see the harness header); with the switch off such an event gets enable() again first",
+                           "between addsig on an enabled event and its next enable() the model expects the subscriptions of the last enable() (reading: additions take effect at enable())"])
